@@ -325,7 +325,9 @@ func signingContext(c int) *dsig.SigningContext {
 		method = []string{dsig.RSASHA256SignatureMethod, dsig.RSASHA1SignatureMethod, dsig.RSASHA512SignatureMethod, dsig.RSASHA256SignatureMethod}[signCount%4]
 		signer = fix.RSAKey(name)
 	}
-	key := fmt.Sprintf("%d/%s", c, method)
+	// the prefix the Signature element is written with is the signer's choice as well
+	prefix := []string{"ds", "ds", "dsig", ""}[(signCount/4)%4]
+	key := fmt.Sprintf("%d/%s/%s", c, method, prefix)
 	if sc, ok := signCtxCache[key]; ok {
 		return sc
 	}
@@ -335,6 +337,7 @@ func signingContext(c int) *dsig.SigningContext {
 		panic(err)
 	}
 	sc.Canonicalizer = dsig.MakeC14N10ExclusiveCanonicalizerWithPrefixList("")
+	sc.Prefix = prefix
 	if err := sc.SetSignatureMethod(method); err != nil {
 		panic(err)
 	}
@@ -392,6 +395,14 @@ func sigDoc(s *Node) (*etree.Document, *etree.Element) {
 	return doc, doc.Root()
 }
 
+// dsName gives a name in the Signature element's own prefix (ds:, dsig: or the default namespace).
+func dsName(root *etree.Element, tag string) string {
+	if root.Space == "" {
+		return tag
+	}
+	return root.Space + ":" + tag
+}
+
 // SetKeyInfo rewrites the (unsigned) KeyInfo part of a signature.
 // More certificates after the first (which is the one both crewjam/saml and goxmldsig read) may be
 // given in extra: they are an unmodelled degree of freedom of the concrete document.
@@ -402,16 +413,16 @@ func (s *Node) SetKeyInfo(ki int, c int, extra ...int) {
 	}
 	switch ki {
 	case kiEmpty:
-		k := root.CreateElement("ds:KeyInfo")
-		k.CreateElement("ds:KeyValue").CreateElement("ds:RSAKeyValue").CreateElement("ds:Modulus").SetText("AQAB")
+		k := root.CreateElement(dsName(root, "KeyInfo"))
+		k.CreateElement(dsName(root, "KeyValue")).CreateElement(dsName(root, "RSAKeyValue")).CreateElement(dsName(root, "Modulus")).SetText("AQAB")
 	case kiCert:
-		xd := root.CreateElement("ds:KeyInfo").CreateElement("ds:X509Data")
-		xd.CreateElement("ds:X509Certificate").SetText(certB64(c))
+		xd := root.CreateElement(dsName(root, "KeyInfo")).CreateElement(dsName(root, "X509Data"))
+		xd.CreateElement(dsName(root, "X509Certificate")).SetText(certB64(c))
 		for _, x := range extra {
-			xd.CreateElement("ds:X509Certificate").SetText(certB64(x))
+			xd.CreateElement(dsName(root, "X509Certificate")).SetText(certB64(x))
 		}
 	case kiBad:
-		root.CreateElement("ds:KeyInfo").CreateElement("ds:X509Data").CreateElement("ds:X509Certificate").SetText("!!not base64!!")
+		root.CreateElement(dsName(root, "KeyInfo")).CreateElement(dsName(root, "X509Data")).CreateElement(dsName(root, "X509Certificate")).SetText("!!not base64!!")
 	}
 	s.KI, s.KICert = ki, c
 	s.Raw = elToString(root)
@@ -513,12 +524,12 @@ func (s *Node) SetKeyInfoOdd(kind int) {
 	if old := root.FindElement("./KeyInfo"); old != nil {
 		root.RemoveChild(old)
 	}
-	x := root.CreateElement("ds:KeyInfo").CreateElement("ds:X509Data").CreateElement("ds:X509Certificate")
+	x := root.CreateElement(dsName(root, "KeyInfo")).CreateElement(dsName(root, "X509Data")).CreateElement(dsName(root, "X509Certificate"))
 	switch kind {
 	case 1:
 		x.CreateComment("no certificate here")
 	case 2:
-		x.CreateElement("ds:Oops")
+		x.CreateElement(dsName(root, "Oops"))
 	case 3:
 		x.CreateProcInst("pi", "x")
 	case 4:
